@@ -1543,6 +1543,14 @@ class Evaluator:
                     if base in st.suffix or base[0] == "attr":
                         depth = st.popped.get(base, 0)
                         return ("top", base) if depth == 0 else ("below", base, depth)
+            if base[0] == "dict" and is_const(idx):
+                for kv in base[1:]:
+                    if kv[0] == idx:
+                        return kv[1]
+                if all(is_const(kv[0]) for kv in base[1:]):
+                    st.effects.append(("crash", "KeyError", idx[1]))
+                    st.env["__raise__"] = ("call", glob("KeyError"), (idx,), ())
+                    return ("unknown", f"KeyError({idx[1]})")
             # xs[len(xs) - 1]  ==  xs[-1]
             if idx[0] == "binop" and idx[1] == "-" and idx[3] == const(1) and _len_arg(idx[2]) == base:
                 return self.simplify(("sub", base, const(-1)), st)
